@@ -248,6 +248,10 @@ func runC16(col *Collector, tier string, seed int64) {
 	for _, fa := range formats {
 		for _, fb := range formats {
 			crossImportCase(col, rng, fa, fb)
+			for _, fc := range formats {
+				multiImportCase(col, fa, fb, fc, false)
+				multiImportCase(col, fa, fb, fc, true)
+			}
 		}
 	}
 }
@@ -281,4 +285,48 @@ func canonDot(out string) string {
 		}
 	}
 	return strings.Join(uniq, "\n")
+}
+
+// a main file importing two files: one brings a section the main file lacks, the other a section it has
+func multiImportCase(col *Collector, fa, fb, fc string, swap bool) {
+	dir := newScratchDir("c16m")
+	defer os.RemoveAll(dir)
+	first, second := "ctx."+fb, "more."+fc
+	if swap {
+		first, second = second, first
+	}
+	main := map[string]interface{}{
+		"import": []interface{}{first, second},
+		"tasks":  map[string]interface{}{"tmain": map[string]interface{}{"command": []interface{}{"echo main"}}},
+	}
+	ctx := map[string]interface{}{
+		"contexts":  map[string]interface{}{"cx": map[string]interface{}{"env": map[string]interface{}{"K": "v"}}},
+		"variables": map[string]interface{}{"FromCtxFile": "yes"},
+	}
+	more := map[string]interface{}{
+		"tasks":    map[string]interface{}{"tmore": map[string]interface{}{"command": []interface{}{"echo more"}, "context": "cx"}},
+		"contexts": map[string]interface{}{"cy": map[string]interface{}{"env": map[string]interface{}{"L": "w"}}},
+	}
+	tm, _ := serialise(main, fa)
+	t1, _ := serialise(ctx, fb)
+	t2, _ := serialise(more, fc)
+	os.WriteFile(filepath.Join(dir, "main."+fa), []byte(tm), 0644)
+	os.WriteFile(filepath.Join(dir, "ctx."+fb), []byte(t1), 0644)
+	os.WriteFile(filepath.Join(dir, "more."+fc), []byte(t2), 0644)
+	cs := Case{Tags: []string{"multi-import"}, NonTrivial: true, Replay: fmt.Sprintf("main.%s imports [%s, %s]", fa, first, second)}
+	r := runTaskctl(dir, nil, 15*time.Second, "-c", filepath.Join(dir, "main."+fa), "list")
+	switch {
+	case r.panicked || r.timedOut || (r.exit != 0 && r.exit != 1):
+		cs.Fail, cs.Sig = fmt.Sprintf("loading crashed: %s", clipStr(firstPanicLine(r.stderr), 200)), "c16-cross-import"
+	case r.exit != 0:
+		cs.Fail, cs.Sig = fmt.Sprintf("the same content loads from one format but not from main.%s importing %s and %s: %s", fa, first, second, lastLines(r.stderr, 1)), "c16-cross-import"
+	default:
+		for _, w := range []string{"- cx", "- cy", "- tmain", "- tmore"} {
+			if !strings.Contains(r.stdout, w) {
+				cs.Fail, cs.Sig = fmt.Sprintf("definition %q is missing (main.%s importing %s and %s)", w, fa, first, second), "c16-cross-import"
+			}
+		}
+	}
+	cs.Impl = fmt.Sprintf("exit=%d", r.exit)
+	col.Add(cs)
 }
